@@ -27,72 +27,47 @@ fn main() {
 
     match build_file(opt.source.clone(), btreeset! { get_standard_includes() }) {
         Ok(built) => {
-            // write to file code
-            if !built.code.is_empty() {
-                let outpath = if let Some(output) = opt.output {
-                    output
-                } else {
-                    let mut source_parent = opt
-                        .source
-                        .clone()
-                        .parent()
-                        .unwrap_or(&Path::new("."))
-                        .to_path_buf();
-                    let mut out_file_name = String::from(
-                        opt.source
-                            .as_path()
-                            .file_stem()
-                            .unwrap()
-                            .to_str()
-                            .unwrap_or(""),
+            // `<stem><suffix>` next to the source
+            let beside_source = |suffix: &str| {
+                let mut out_file_name = opt
+                    .source
+                    .as_path()
+                    .file_stem()
+                    .unwrap_or(opt.source.as_os_str())
+                    .to_os_string();
+                out_file_name.push(suffix);
+
+                opt.source
+                    .parent()
+                    .unwrap_or(&Path::new("."))
+                    .join(out_file_name)
+            };
+            let code_path = opt.output.clone().unwrap_or(beside_source(".hex"));
+            let eeprom_path = opt.eeprom.clone().unwrap_or(beside_source(".eep.hex"));
+
+            if !built.eeprom.is_empty() && code_path == eeprom_path {
+                println!(
+                    "Failed to write hex files for {}: flash and eeprom image would go to the same file {}",
+                    file_name,
+                    code_path.display()
+                );
+                std::process::exit(1);
+            }
+
+            // write to file code (an empty image is a file with the end-of-file record)
+            match write_code_hex(code_path, &built) {
+                Ok(()) => {}
+                Err(e) => {
+                    println!(
+                        "Failed to generate and write hex file {}, with error {}",
+                        file_name, e
                     );
-                    out_file_name += ".hex";
-
-                    source_parent.push(out_file_name);
-
-                    source_parent
-                };
-
-                match write_code_hex(outpath, &built) {
-                    Ok(()) => {}
-                    Err(e) => {
-                        println!(
-                            "Failed to generate and write hex file {}, with error {}",
-                            file_name, e
-                        );
-                        std::process::exit(1);
-                    }
+                    std::process::exit(1);
                 }
-            } else {
-                println!("Nothing to write of code for file {}", file_name);
             }
             // write to file eeprom
             if !built.eeprom.is_empty() {
-                let outpath = if let Some(output) = opt.eeprom {
-                    output
-                } else {
-                    let mut source_parent = opt
-                        .source
-                        .clone()
-                        .parent()
-                        .unwrap_or(&Path::new("."))
-                        .to_path_buf();
-                    let mut out_file_name = String::from(
-                        opt.source
-                            .as_path()
-                            .file_stem()
-                            .unwrap()
-                            .to_str()
-                            .unwrap_or(""),
-                    );
-                    out_file_name += ".eep.hex";
-
-                    source_parent.push(out_file_name);
-
-                    source_parent
-                };
-
-                match write_eeprom_hex(outpath, &built) {
+                match write_eeprom_hex(eeprom_path, &built) {
                     Ok(()) => {}
                     Err(e) => {
                         println!(
